@@ -89,7 +89,7 @@ func (f *Fabric) RoundTrip(req *http.Request) (*http.Response, error) {
 	}
 	f.mu.Lock()
 	r.N = len(f.Reqs)
-	k := r.Host + r.Path + "|" + r.BodyHash
+	k := r.Host + r.Path + "|" + r.Canon
 	f.attempts[k]++
 	r.Attempt = f.attempts[k]
 	f.Reqs = append(f.Reqs, r)
